@@ -14,6 +14,7 @@ import types
 
 from code_data import (AdditionalLine, Args, Cellvar, CodeData, Constant, Freevar, Function, Instruction, Jump, Name, NoArg, Varname)
 
+from .props import decode_failure  # noqa: E402
 from . import gen, oracle
 from .props import Decoded, flat
 from .props2 import CORPUS_CHECKS, PY38, PY310, code_replace, fail, part, replayer, result
@@ -93,7 +94,7 @@ def _json_cycle(x, label, keep_doc=True):
 def c07_json(code, dec):
     cd, err = dec.get(code)
     if err is not None:
-        return []
+        return decode_failure(code, err)
     return _json_cycle(cd, "decoded") + _json_cycle(cd.normalize(), "normalized")
 
 
@@ -202,7 +203,7 @@ _NESTED, _NOFREE = inspect.CO_NESTED, inspect.CO_NOFREE
 def c05_static(code, dec):
     cd, err = dec.get(code)
     if err is not None:
-        return []
+        return decode_failure(code, err)
     try:
         c2 = cd.normalize().to_code()
     except Exception as e:
@@ -350,7 +351,7 @@ OPS = {"R": _op_code, "J": _op_json, "N": _op_norm}
 def c06_histories(code, dec, maxlen=None):
     cd, err = dec.get(code)
     if err is not None:
-        return []
+        return decode_failure(code, err)
     if maxlen is None:     # quick tier: all histories of length 1 everywhere, length 2 on a deterministic quarter of the code objects
         maxlen = 3 if os.environ.get("PCV_TIER") == "thorough" and (len(code.co_code) // 2) % 5 == 0 else 2 if (os.environ.get("PCV_TIER") == "thorough" or (len(code.co_code) // 2) % 4 == 0) else 1
     n = cd.normalize()
@@ -424,7 +425,7 @@ def _permuted_variants(code, rnd):
 def c06_variants(code, dec):
     cd, err = dec.get(code)
     if err is not None:
-        return []
+        return decode_failure(code, err)
     if any(isinstance(c, types.CodeType) for c in code.co_consts):
         nested = True
     n = cd.normalize()
